@@ -4,11 +4,15 @@
 // exit 0: behaviour matches the property; exit 1: property violated natively (CONFIRMED line); other: sanitizer abort
 #include "stir/VectorWithOffset.h"
 #include "stir/Array.h"
+#include "stir/IndexRange.h"
+#include "stir/IndexRange2D.h"
 #include "stir/IndexRange3D.h"
 #include <cstdio>
 #include <cstdlib>
 #include <cstring>
 #include <map>
+#include <memory>
+#include <vector>
 #include <string>
 using stir::VectorWithOffset;
 typedef std::map<int, int> Ref;
@@ -45,6 +49,42 @@ int main(int argc, char** argv)
             arr[s][r].resize(1, 3 + x);
             if (arr.is_contiguous()) { std::printf("CONFIRMED Array<3> 2x2x3 with row [%d][%d] resized (own storage) is still reported as contiguous\n", s, r); return 1; }
           }
+      std::printf("REPLAY ok\n");
+      return 0;
+    }
+  if (op == "arrn")
+    {
+      // Array<2>/Array<3>::init on a preallocated block (irregular sub-ranges) and ::resize with an irregular range:
+      // init: element (i,j) lives at data + (number of elements before it in row-major order), the array is contiguous;
+      // resize: every row gets exactly the sub-range of its own index
+      for (int variant = 0; variant < 3; ++variant)
+        {
+          stir::VectorWithOffset<stir::IndexRange<1>> rows(amin, amin + 2);
+          rows[amin] = stir::IndexRange<1>(bmin, bmin + 1 + variant);
+          rows[amin + 1] = stir::IndexRange<1>(bmin - 1, bmin + 3);
+          rows[amin + 2] = stir::IndexRange<1>(bmin + 2, bmin + 2 + x % 3);
+          stir::IndexRange<2> range(rows);
+          std::vector<float> block(range.size_all() + 8, -7.F);
+          for (std::size_t k = 0; k < range.size_all(); ++k) block[4 + k] = float(k);
+          stir::shared_ptr<float[]> view(&block[4], [](float*) {}); // the array views the block, does not own it
+          stir::Array<2, float> arr(range, view);
+          if (!arr.is_contiguous()) { std::printf("CONFIRMED Array<2>(range, data) on a preallocated block (Array::init) gives an array reported as not contiguous\n"); return 1; }
+          std::size_t k = 0;
+          for (int i = amin; i <= amin + 2; ++i)
+            {
+              if (arr[i].get_min_index() != rows[i].get_min_index() || arr[i].get_max_index() != rows[i].get_max_index())
+                { std::printf("CONFIRMED Array<2>::init: row %d has range [%d,%d], requested [%d,%d]\n", i, arr[i].get_min_index(), arr[i].get_max_index(), rows[i].get_min_index(), rows[i].get_max_index()); return 1; }
+              for (int j = rows[i].get_min_index(); j <= rows[i].get_max_index(); ++j, ++k)
+                if (&arr[i][j] != &block[4 + k])
+                  { std::printf("CONFIRMED Array<2>::init: element (%d,%d) is at offset %ld of the block, row-major position is %lu\n", i, j, long(&arr[i][j] - &block[4]), (unsigned long)k); return 1; }
+            }
+          stir::Array<2, float> r2(stir::IndexRange2D(amin - 1, amin + 1, 0, 3));
+          r2.resize(range);
+          for (int i = amin; i <= amin + 2; ++i)
+            if (r2[i].get_min_index() != rows[i].get_min_index() || r2[i].get_max_index() != rows[i].get_max_index())
+              { std::printf("CONFIRMED Array<2>::resize: row %d has range [%d,%d], requested [%d,%d]\n", i, r2[i].get_min_index(), r2[i].get_max_index(), rows[i].get_min_index(), rows[i].get_max_index()); return 1; }
+          if (r2.get_min_index() != amin || r2.get_max_index() != amin + 2) { std::printf("CONFIRMED Array<2>::resize: outer range [%d,%d], requested [%d,%d]\n", r2.get_min_index(), r2.get_max_index(), amin, amin + 2); return 1; }
+        }
       std::printf("REPLAY ok\n");
       return 0;
     }
